@@ -1,0 +1,236 @@
+//go:build verif
+
+package protocol
+
+// Contracts for the verification machinery in /verif (comment-only; never compiled without -tags verif).
+
+// ---- C14: every command type round-trips (harness functions in zz_verif_harness.go) ----
+// StateResultCommand: LockDBState.SlowKeyCount has no room in the 64-byte frame and is not transmitted (excluded).
+//@ func verifRoundTripCommand
+//@   requires x != nil && y != nil && x != y && len(buf) >= 64
+//@   ensures C14.rt.Command: result && samefields(x, y)
+
+
+//@ func verifReencodeCommand
+//@   requires x != nil && len(in) >= 64 && len(out) >= 64 && arr(in) != arr(out)
+//@   ensures C14.re.Command: result && forall(k, 0, 19, out[k] == in[k])
+
+
+//@ func verifRoundTripResultCommand
+//@   requires x != nil && y != nil && x != y && len(buf) >= 64
+//@   ensures C14.rt.ResultCommand: result && samefields(x, y)
+
+
+//@ func verifReencodeResultCommand
+//@   requires x != nil && len(in) >= 64 && len(out) >= 64 && arr(in) != arr(out)
+//@   ensures C14.re.ResultCommand: result && forall(k, 0, 20, out[k] == in[k])
+
+
+//@ func verifRoundTripInitCommand
+//@   requires x != nil && y != nil && x != y && len(buf) >= 64
+//@   ensures C14.rt.InitCommand: result && samefields(x, y, Blank)
+
+
+//@ func verifReencodeInitCommand
+//@   requires x != nil && len(in) >= 64 && len(out) >= 64 && arr(in) != arr(out)
+//@   ensures C14.re.InitCommand: result && forall(k, 0, 35, out[k] == in[k])
+
+
+//@ func verifRoundTripInitResultCommand
+//@   requires x != nil && y != nil && x != y && len(buf) >= 64
+//@   ensures C14.rt.InitResultCommand: result && samefields(x, y, Blank)
+
+
+//@ func verifReencodeInitResultCommand
+//@   requires x != nil && len(in) >= 64 && len(out) >= 64 && arr(in) != arr(out)
+//@   ensures C14.re.InitResultCommand: result && forall(k, 0, 21, out[k] == in[k])
+
+
+//@ func verifRoundTripLockCommand
+//@   requires x != nil && y != nil && x != y && len(buf) >= 64
+//@   ensures C14.rt.LockCommand: result && samefields(x, y, Data)
+
+
+//@ func verifReencodeLockCommand
+//@   requires x != nil && len(in) >= 64 && len(out) >= 64 && arr(in) != arr(out)
+//@   ensures C14.re.LockCommand: result && forall(k, 0, 64, out[k] == in[k])
+
+
+//@ func verifRoundTripLockResultCommand
+//@   requires x != nil && y != nil && x != y && len(buf) >= 64
+//@   ensures C14.rt.LockResultCommand: result && samefields(x, y, Blank, Data)
+
+
+//@ func verifReencodeLockResultCommand
+//@   requires x != nil && len(in) >= 64 && len(out) >= 64 && arr(in) != arr(out)
+//@   ensures C14.re.LockResultCommand: result && forall(k, 0, 60, out[k] == in[k])
+
+
+//@ func verifRoundTripStateCommand
+//@   requires x != nil && y != nil && x != y && len(buf) >= 64
+//@   ensures C14.rt.StateCommand: result && samefields(x, y, Blank)
+
+
+//@ func verifReencodeStateCommand
+//@   requires x != nil && len(in) >= 64 && len(out) >= 64 && arr(in) != arr(out)
+//@   ensures C14.re.StateCommand: result && forall(k, 0, 21, out[k] == in[k])
+
+
+//@ func verifRoundTripStateResultCommand
+//@   requires x != nil && y != nil && x != y && len(buf) >= 64
+//@   ensures C14.rt.StateResultCommand: result && samefields(x, y, Blank, SlowKeyCount)
+
+
+//@ func verifReencodeStateResultCommand
+//@   requires x != nil && len(in) >= 64 && len(out) >= 64 && arr(in) != arr(out)
+//@   ensures C14.re.StateResultCommand: result && forall(k, 0, 63, out[k] == in[k])
+
+
+//@ func verifRoundTripAdminCommand
+//@   requires x != nil && y != nil && x != y && len(buf) >= 64
+//@   ensures C14.rt.AdminCommand: result && samefields(x, y, Blank)
+
+
+//@ func verifReencodeAdminCommand
+//@   requires x != nil && len(in) >= 64 && len(out) >= 64 && arr(in) != arr(out)
+//@   ensures C14.re.AdminCommand: result && forall(k, 0, 20, out[k] == in[k])
+
+
+//@ func verifRoundTripAdminResultCommand
+//@   requires x != nil && y != nil && x != y && len(buf) >= 64
+//@   ensures C14.rt.AdminResultCommand: result && samefields(x, y, Blank)
+
+
+//@ func verifReencodeAdminResultCommand
+//@   requires x != nil && len(in) >= 64 && len(out) >= 64 && arr(in) != arr(out)
+//@   ensures C14.re.AdminResultCommand: result && forall(k, 0, 20, out[k] == in[k])
+
+
+//@ func verifRoundTripPingCommand
+//@   requires x != nil && y != nil && x != y && len(buf) >= 64
+//@   ensures C14.rt.PingCommand: result && samefields(x, y, Blank)
+
+
+//@ func verifReencodePingCommand
+//@   requires x != nil && len(in) >= 64 && len(out) >= 64 && arr(in) != arr(out)
+//@   ensures C14.re.PingCommand: result && forall(k, 0, 19, out[k] == in[k])
+
+
+//@ func verifRoundTripPingResultCommand
+//@   requires x != nil && y != nil && x != y && len(buf) >= 64
+//@   ensures C14.rt.PingResultCommand: result && samefields(x, y, Blank)
+
+
+//@ func verifReencodePingResultCommand
+//@   requires x != nil && len(in) >= 64 && len(out) >= 64 && arr(in) != arr(out)
+//@   ensures C14.re.PingResultCommand: result && forall(k, 0, 20, out[k] == in[k])
+
+
+//@ func verifRoundTripQuitCommand
+//@   requires x != nil && y != nil && x != y && len(buf) >= 64
+//@   ensures C14.rt.QuitCommand: result && samefields(x, y, Blank)
+
+
+//@ func verifReencodeQuitCommand
+//@   requires x != nil && len(in) >= 64 && len(out) >= 64 && arr(in) != arr(out)
+//@   ensures C14.re.QuitCommand: result && forall(k, 0, 19, out[k] == in[k])
+
+
+//@ func verifRoundTripQuitResultCommand
+//@   requires x != nil && y != nil && x != y && len(buf) >= 64
+//@   ensures C14.rt.QuitResultCommand: result && samefields(x, y, Blank)
+
+
+//@ func verifReencodeQuitResultCommand
+//@   requires x != nil && len(in) >= 64 && len(out) >= 64 && arr(in) != arr(out)
+//@   ensures C14.re.QuitResultCommand: result && forall(k, 0, 20, out[k] == in[k])
+
+
+//@ func verifRoundTripCallCommand
+//@   requires x != nil && y != nil && x != y && len(buf) >= 64 && len(x.MethodName) <= 38
+//@   ensures C14.rt.CallCommand: result && samefields(x, y, MethodName, Data)
+
+
+//@ func verifReencodeCallCommand
+//@   requires x != nil && len(in) >= 64 && len(out) >= 64 && arr(in) != arr(out)
+//@   ensures C14.re.CallCommand: result && forall(k, 0, 26, out[k] == in[k])
+
+
+//@ func verifRoundTripCallResultCommand
+//@   requires x != nil && y != nil && x != y && len(buf) >= 64 && len(x.ErrType) <= 37
+//@   ensures C14.rt.CallResultCommand: result && samefields(x, y, ErrType, Data)
+
+
+//@ func verifReencodeCallResultCommand
+//@   requires x != nil && len(in) >= 64 && len(out) >= 64 && arr(in) != arr(out)
+//@   ensures C14.re.CallResultCommand: result && forall(k, 0, 27, out[k] == in[k])
+
+
+//@ func verifRoundTripLeaderCommand
+//@   requires x != nil && y != nil && x != y && len(buf) >= 64
+//@   ensures C14.rt.LeaderCommand: result && samefields(x, y, Blank)
+
+
+//@ func verifReencodeLeaderCommand
+//@   requires x != nil && len(in) >= 64 && len(out) >= 64 && arr(in) != arr(out)
+//@   ensures C14.re.LeaderCommand: result && forall(k, 0, 20, out[k] == in[k])
+
+
+//@ func verifRoundTripLeaderResultCommand
+//@   requires x != nil && y != nil && x != y && len(buf) >= 64 && len(x.Host) <= 43
+//@   ensures C14.rt.LeaderResultCommand: result && samefields(x, y, Host)
+
+
+//@ func verifReencodeLeaderResultCommand
+//@   requires x != nil && len(in) >= 64 && len(out) >= 64 && arr(in) != arr(out) && in[20] <= 43
+//@   ensures C14.re.LeaderResultCommand: result && forall(k, 0, 21, out[k] == in[k])
+
+
+//@ func verifRoundTripSubscribeCommand
+//@   requires x != nil && y != nil && x != y && len(buf) >= 64
+//@   ensures C14.rt.SubscribeCommand: result && samefields(x, y, Blank)
+
+
+//@ func verifReencodeSubscribeCommand
+//@   requires x != nil && len(in) >= 64 && len(out) >= 64 && arr(in) != arr(out)
+//@   ensures C14.re.SubscribeCommand: result && forall(k, 0, 53, out[k] == in[k])
+
+
+//@ func verifRoundTripSubscribeResultCommand
+//@   requires x != nil && y != nil && x != y && len(buf) >= 64
+//@   ensures C14.rt.SubscribeResultCommand: result && samefields(x, y, Blank)
+
+
+//@ func verifReencodeSubscribeResultCommand
+//@   requires x != nil && len(in) >= 64 && len(out) >= 64 && arr(in) != arr(out)
+//@   ensures C14.re.SubscribeResultCommand: result && forall(k, 0, 29, out[k] == in[k])
+
+// ---- C14: README wire layout of the lock request / response frames ----
+//@ spec func le16(b, o) = b[o] + b[o+1]*256
+//@ spec func bytesAt(a, b, o, n) = forall(k, 0, n, a[k] == b[o+k])
+//@ spec func lockRequestLayout(c, b) = c.Magic == b[0] && c.Version == b[1] && c.CommandType == b[2] && bytesAt(c.RequestId, b, 3, 16) && c.Flag == b[19] && c.DbId == b[20] && bytesAt(c.LockId, b, 21, 16) && bytesAt(c.LockKey, b, 37, 16) && c.Timeout == le16(b, 53) && c.TimeoutFlag == le16(b, 55) && c.Expried == le16(b, 57) && c.ExpriedFlag == le16(b, 59) && c.Count == le16(b, 61) && c.Rcount == b[63]
+//@ spec func lockResultLayout(c, b) = c.Magic == b[0] && c.Version == b[1] && c.CommandType == b[2] && bytesAt(c.RequestId, b, 3, 16) && c.Result == b[19] && c.Flag == b[20] && c.DbId == b[21] && bytesAt(c.LockId, b, 22, 16) && bytesAt(c.LockKey, b, 38, 16) && c.Lcount == le16(b, 54) && c.Count == le16(b, 56) && c.Lrcount == b[58] && c.Rcount == b[59]
+
+//@ func (*LockCommand).Decode
+//@   requires self != nil
+//@   ensures C14.layout.LockCommand.dec: implies(len(buf) >= 64, result == nil && lockRequestLayout(self, buf))
+//@   ensures C14.layout.LockCommand.dec-short: implies(len(buf) < 64, result != nil)
+//@   inline
+
+//@ func (*LockCommand).Encode
+//@   requires self != nil
+//@   ensures C14.layout.LockCommand.enc: implies(len(buf) >= 64, result == nil && lockRequestLayout(self, buf))
+//@   ensures C14.layout.LockCommand.enc-short: implies(len(buf) < 64, result != nil)
+//@   inline
+
+//@ func (*LockResultCommand).Decode
+//@   requires self != nil
+//@   ensures C14.layout.LockResultCommand.dec: implies(len(buf) >= 64, result == nil && lockResultLayout(self, buf))
+//@   ensures C14.layout.LockResultCommand.dec-short: implies(len(buf) < 64, result != nil)
+//@   inline
+
+//@ func (*LockResultCommand).Encode
+//@   requires self != nil
+//@   ensures C14.layout.LockResultCommand.enc: implies(len(buf) >= 64, result == nil && lockResultLayout(self, buf) && forall(k, 60, 64, buf[k] == 0))
+//@   ensures C14.layout.LockResultCommand.enc-short: implies(len(buf) < 64, result != nil)
+//@   inline
